@@ -62,6 +62,8 @@ def spec_env():
             pass
     import afkak.common as C
     env.update({k: v for k, v in vars(C).items() if not k.startswith('__')})
+    from afkak.kafkacodec import KafkaCodec
+    env['KafkaCodec'] = KafkaCodec
     return env
 
 
